@@ -2,7 +2,8 @@
    [sliced d fmt attrs a n] is the unrestricted load restricted to events a .. a+n-1: same particles in order,
    counts under the ORIGINAL labels, n events.  Statements only; proofs in Proofs/C02_Oscar.v. *)
 From Coq Require Import List String ZArith QArith Bool Arith.
-From SX Require Import Lib.Strs Gen.GenParticleMap Model.Oscar Model.OscarDoc Proofs.C01_Oscar Proofs.C02_Oscar.
+From SX Require Import Lib.Strs Gen.GenParticleMap Model.Oscar Model.OscarDoc Model.Jetscape Model.JetscapeDoc
+  Proofs.C01_Oscar Proofs.C02_Oscar Proofs.C02_Jetscape.
 Import ListNotations.
 
 Theorem C02_oscar_range :
@@ -55,3 +56,13 @@ Theorem C02_sliced_is_slice :
   = firstn n (skipn a (l_counts (expected tok_float tok_int pdg_valid d fmt attrs))).
 Proof. exact sliced_is_slice. Qed.
 Print Assumptions C02_sliced_is_slice.
+
+(* JETSCAPE: events=(a,b) is the slice a..b of the unrestricted load (labels a+1..b+1 kept, sigmaGen kept) *)
+Theorem C02_jetscape_range :
+  forall tok_float tok_int pdg_valid pdg_charge usqrt defstr d s1 s2 (a b : nat),
+  jwf tok_float tok_int pdg_valid pdg_charge usqrt defstr d s1 s2 ->
+  (a <= b)%nat -> (b < List.length (jd_events d))%nat ->
+  jload tok_float tok_int pdg_valid pdg_charge usqrt None (jrender d) defstr (SelRange (Z.of_nat a) (Z.of_nat b))
+  = Ok (jsliced tok_float tok_int pdg_valid pdg_charge usqrt d s1 s2 a (b - a + 1)).
+Proof. exact jload_range. Qed.
+Print Assumptions C02_jetscape_range.
